@@ -26,7 +26,8 @@ CLAIMED = {
          "Proof: Props/C11.lean for all columns, ids and sizes; correspondence (exact on dyadic values) ties the model to the "
          "code; the real graph's aggregation nodes and the precedence auto < built-in < user are searched against an "
          "independent reference. numpy_groupies itself is modelled, not verified."
-         " Concrete model: Props/C11Sim.lean (groupAggFns_user_wins / _automatic / _only_if / _never_shadows, buildFunctions_merge_order: precedence of user specs over automatic sums in Core/Simulate.lean)."),
+         " Concrete model: Props/C11Sim.lean (groupAggFns_user_wins / _automatic / _only_if / _never_shadows, buildFunctions_merge_order: precedence of user specs over automatic sums in Core/Simulate.lean)."
+         " Props/SimSpecs.lean, Props/C15E2E.lean: table-level definitions (simulate_group_sum/_max/_min/_any/_all/_count)."),
  "C12": ("5/C12", "Lean 4 theorems: partition specifications of the six id constructors by scan invariants (pairId/snId/bgId/"
          "wthhId/fgId incl. order independence of the family unit), nesting and collision lemmas; exact-id correspondence "
          "with groupings.py; exhaustive enumeration of small valid structures x all row orders against the unit definitions",
@@ -39,7 +40,8 @@ CLAIMED = {
          "time_conversion.py by differential runs on the real name universe; ratio search on the real graph",
          "Proof: Props/C13.lean; constants regenerated from time_conversion.py; float round-off of the real converters is "
          "only explored (≤ 2^-40 relative)."
-         " Concrete model: Props/C13Sim.lean (timeConvOp_values, timeConvOp_round_trip, timeConvOp_groupSum_commute on Core/Simulate.lean)."),
+         " Concrete model: Props/C13Sim.lean (timeConvOp_values, timeConvOp_round_trip, timeConvOp_groupSum_commute on Core/Simulate.lean)."
+         " Props/SimSpecs.lean: simulate_time_variant (requested derived variant = requested source x fixed factor, at table level)."),
  "C18": ("5/C18", "Lean 4 theorems on piecewise-polynomial schedules (bin selection, evaluation = polynomial of the unique "
          "piece, continuity of generated intercepts, monotone / convex / marginal rate <= top rate / soli <= rate*tax + 1 cent "
          "from decidable coefficient conditions, parser accepts only well-formed input) + kernel-decided conditions for every "
@@ -67,7 +69,8 @@ CLAIMED = {
          "Proof: Props/C02.lean on the abstract DAG model for arbitrary systems and populations; ties as for C01; the derived-id "
          "arithmetic (hh*100+flag, fg*100+k with k<100) is covered by C12 (wthh_no_collision, bg_nests_in_fg, bg_collision_at_100)."
          " Concrete model: Props/C02Sim.lean (ruleOp/groupAggOp/pidSumOp on A++B restricted to A = on A under disjoint group ids / closed pointers, lifted: sys_eval_union, pruned_eval_union, sys_eval_union_of_parts; counterexamples without the separation hypotheses), Props/C12Cor.lean (union and relabelling theorems for all id constructors)."
-         " End to end: Props/C02E2E.lean (simulate_union, simulate_union_snd, simulate_union_of_parts with computable separation checks and counterexamples)."),
+         " End to end: Props/C02E2E.lean (simulate_union, simulate_union_snd, simulate_union_of_parts with computable separation checks and counterexamples)."
+         " Props/C02Ids.lean: id constructors under unions (groupingOp_union, groupAggOp_grouping_union); the DAG lift with computed ids under unions is not done (partial there)."),
  "C04": ("5/C04", "Lean 4 theorems: prune_sound, targets_indep, run_shape, extra_data_irrelevant on the abstract DAG model; search on "
          "the real system: every node alone / in random target sets / with all nodes, noise columns, debug and minimal-specification options"
          " + target independence, sub-target success and row count proved for the concrete model Core/Simulate.lean; node-purity search (read-only inputs)",
@@ -83,7 +86,8 @@ CLAIMED = {
          "Proof: Props/C05.lean on the abstract DAG model; time-unit re-association through a supplied unit is covered by C13 "
          "(conv_compose) over Q and explored with 1e-9 tolerance on floats."
          " Concrete model: Props/C05Sim.lean (simulate_feed_back_gen/_compat with the necessary side conditions S/T/F, each shown necessary by a kernel-checked counterexample; simulate_supplied_is_used; the unconditional statement is refuted for the model: simulate_feed_back_false)."
-         " Tie T4 runs in this check."),
+         " Tie T4 runs in this check."
+         " Props/C05Rule.lean: simulate_feed_back_rule under name/annotation conditions only."),
  "C06": ("5/C06", "Lean 4 theorems: locality (systems agreeing outside U agree on every node that cannot reach U), replace_by_copy, "
          "params_locality; search on the real system: per-group parameter perturbations, function replacements, identical copies, "
          "bit-identical comparison outside the predicted cone"
@@ -129,7 +133,8 @@ CLAIMED = {
          "Proof: Props/C15.lean; one obligation per suffixed node and date, evaluated by the Lean interpreter on the regenerated "
          "graph (not kernel-decided); nodes in the cone of a recorded finding (three roots) are not claimed; the refinement order "
          "(incl. eg within bg) is an assumption backed by the C12 theorems and checked on every generated population."
-         " Concrete model: Props/C15Sim.lean (groupAggOp_const, ruleOp_const, timeConvOp_const, sys_eval_const, suffix_check_sound)."),
+         " Concrete model: Props/C15Sim.lean (groupAggOp_const, ruleOp_const, timeConvOp_const, sys_eval_const, suffix_check_sound)."
+         " Props/C15E2E.lean: the same at the level of the result table (simulate_const_column, simulate_suffix_columns)."),
  "C20": ("5/C20", "Lean 4 theorems on the model of the input validators and type conversion: accepts_iff (declarative characterisation), "
          "one rejection theorem per fault class, convert_lossless under the explicit 2^53 guard with a kernel-checked witness beyond "
          "it, convert_rejects_lossy, warning_iff_converted; model compared with the real functions on every dtype pair and on random "
